@@ -58,3 +58,18 @@ Theorem C13_generated_output_time_rule_is_the_model : forall st s i ot ports c,
   end.
 Proof. exact tie_output_time. Qed.
 Print Assumptions C13_generated_output_time_rule_is_the_model.
+
+(* the property, read off the regenerated validation itself: scheduler.step accepts a reply in exactly two cases - an int
+   strictly later than the step (then the self-step is scheduled iff it lies before until), or no next step from a simulator
+   that is not time-based; everything else (not an int, not later, a time-based simulator without a next step) is refused *)
+Theorem C13_generated_reply_accepted_iff : forall r c u tb sched,
+  step_reply r c u tb = StepOk sched <->
+  (exists v, r = RInt v /\ c < v /\ sched = (if v <? u then Some v else None)) \/ (r = RNone /\ tb = false /\ sched = None).
+Proof. exact generated_reply_accepted_iff. Qed.
+Print Assumptions C13_generated_reply_accepted_iff.
+(* ... and get_outputs accepts an output time iff it is not before the time of the step that produced it *)
+Theorem C13_generated_output_time_accepted_iff : forall ot c lst ott,
+  output_time_rule ot c lst = Some ott <->
+  lst <= ot /\ ott = (if ot =? thd c then c else ot :: repeat 0 (length c - 1)).
+Proof. exact generated_output_time_accepted_iff. Qed.
+Print Assumptions C13_generated_output_time_accepted_iff.
